@@ -39,6 +39,9 @@ var fields = map[string]map[string][2]interface{}{
 		"scaled2": f("Int", false), "scaled3": f("Int", false)},
 	"Device": {"id": f("Int", false), "isOn": f("Bool", false), "temp": f("Int", false), "owner": f("User", false)},
 	"Admin":  {"id": f("Int", false), "power": f("String", false)},
+	// the root of a mutation (logical names; they render as newUser / touch) and the real Mutation type
+	"MRoot":    {"mNewUser": f("User", false), "mTouch": f("Device", false)},
+	"Mutation": {"newUser": f("User", false), "touch": f("Device", false)},
 }
 
 func randomPartition(r *rand.Rand) fedzoo.Partition {
@@ -50,7 +53,9 @@ func randomPartition(r *rand.Rand) fedzoo.Partition {
 				ss = append(ss, s)
 			}
 		}
-		if len(ss) == 0 {
+		if len(ss) == 0 || strings.HasPrefix(fld, "Mutation.") {
+			// a mutation field lives on exactly one service (two selections of one mutation field that two services
+			// offer may be planned onto both, which the gateway refuses like any mutation spanning services)
 			ss = []string{fedzoo.Services[r.Intn(len(fedzoo.Services))]}
 		}
 		p[fld] = ss
@@ -116,11 +121,15 @@ func runMonolith(schema *graphql.Schema, text string) (r ex.Run) {
 		r.Outcome, r.Err = "reject", "parse: "+err.Error()
 		return
 	}
-	if err := graphql.PrepareQuery(context.Background(), schema.Query, q.SelectionSet); err != nil {
+	root := schema.Query
+	if q.Kind == "mutation" {
+		root = schema.Mutation
+	}
+	if err := graphql.PrepareQuery(context.Background(), root, q.SelectionSet); err != nil {
 		r.Outcome, r.Err = "reject", "prepare: "+err.Error()
 		return
 	}
-	val, err := graphql.NewExecutor(graphql.NewImmediateGoroutineScheduler()).Execute(context.Background(), schema.Query, nil, q)
+	val, err := graphql.NewExecutor(graphql.NewImmediateGoroutineScheduler()).Execute(context.Background(), root, nil, q)
 	if err != nil {
 		r.Outcome, r.Err = "error", err.Error()
 		return
@@ -194,6 +203,10 @@ func usedFields(q *graphql.Query) (out []string, nkeys int) {
 			}
 			walk(typ, sel.SelectionSet)
 		}
+		return
+	}
+	if q.Kind == "mutation" {
+		walk("Mutation", ss)
 		return
 	}
 	walk("Query", ss)
@@ -429,6 +442,21 @@ func Main(args []string) error {
 		for qi := 0; qi < *nq; qi++ {
 			g := ex.NewGen(r, *dirs)
 			ast := g.SelSet("Query", 3)
+			if r.Intn(5) == 0 {
+				// a mutation: its result is an object whose fields may live on other services than the mutation itself
+				ast = g.SelSet("MRoot", 3)
+				g.SetOp("mutation")
+				// the gateway refuses a mutation whose top-level fields need more than one service ("only support 1
+				// mutation step to maintain ordering" - a documented limit, outside C06): one mutation field per query,
+				// possibly several times under different response keys
+				kept := ast.Sels[:0]
+				for _, sl := range ast.Sels {
+					if sl.Name == ast.Sels[0].Name {
+						kept = append(kept, sl)
+					}
+				}
+				ast.Sels = kept
+			}
 			text := g.Render(ast)
 			i++
 			rec := Rec{Subs: []Sub{}, Exposes: exposes}
